@@ -811,8 +811,10 @@ def r7_promotions(ctx):
     ctx.ob(rule, name, 'promotion rank: rank 8 for White, rank 1 for Black', tbl == want and polarity_ok, found={k: hex(v) for k, v in tbl.items()}, expected={k: hex(v) for k, v in want.items()})
     # expansion over the whole constant
     fn = facts.need_fn(name)
+    # private helpers that only generate_pawn_moves calls are part of it (also when they contain the expansion loop)
+    own_helpers = {h for h in facts.only_through({name}) if h != name and facts.fns[h].kind != 'Closure'}
     outs = Engine(facts, opaque={TGT + 'generate_pawn_move_targets', TGT + 'generate_pawn_attack_targets', MGM + 'expand_piece_targets', MGM + 'generate_en_passant_moves'},
-                  readonly={CHESSMOVE + '::to_square', CHESSMOVE + '::from_square', CHESSMOVE + '::captures'}, max_paths=4000).run(name)
+                  readonly={CHESSMOVE + '::to_square', CHESSMOVE + '::from_square', CHESSMOVE + '::captures'}, max_paths=4000, inline_loops=own_helpers).run(name)
     ctx.touch(name)
     okp = False
     adapter_over_set = False
